@@ -272,8 +272,10 @@ int yr_parser_emit_pushes_for_rules(
 
   for (uint32_t i = 0; i <= compiler->current_rule_idx; i++)
   {
-    // Is rule->identifier prefixed by prefix?
-    if (strncmp(prefix, rule->identifier, strlen(prefix)) == 0)
+    // Is rule->identifier prefixed by prefix? (The identifier is NULL for a
+    // rule whose declaration failed half-way, e.g. for lack of memory.)
+    if (rule->identifier != NULL &&
+        strncmp(prefix, rule->identifier, strlen(prefix)) == 0)
     {
       uint32_t rule_idx = yr_hash_table_lookup_uint32(
           compiler->rules_table, rule->identifier, ns->name);
